@@ -111,6 +111,7 @@ structure Trace (S R : Type) where
   state : S
   results : List (Outcome R)
   crashed : Bool
+  deriving DecidableEq
 
 /-- Replay from log position `pos`: entries are `(raft index, data)`; a panic kills the server,
     nothing after it is applied. -/
